@@ -113,6 +113,8 @@ def _cfg_iter():
         clock = st.ghost.get("clock")
         ok = len(calls) == 1
         out = [("each overdue job gets exactly one cancel attempt", z3.And(z3.BoolVal(ok), calls[0].args[1] == job) if ok else z3.BoolVal(False))]
+        out.append(("the cancel attempt is made with no executor lock held (it runs the future's done-callbacks, which may submit to this very executor: "
+                    "under the jobs lock that would stop the timeout thread for good)", z3.BoolVal(ok and not calls[0].held)))
         out.append(("never early: the cancel attempt happens strictly after the job's own deadline", deadline(st, job) < clock if clock is not None else z3.BoolVal(False)))
         return out
 
@@ -144,7 +146,10 @@ def _setup_iter(engine, st):
     ex = sym_inst(engine, st, "TimeoutExecutor", "executor")
     sid = Val.id(ex.t)
     engine.cfg.timeouts = [sid]
-    return [Cls("TimeoutExecutor"), ex], {}, {"sid": sid, "ex": ex}
+    from .base import StopFlags
+    flags = StopFlags(engine, st, ex)
+    flags.install(engine.cfg)
+    return [Cls("TimeoutExecutor"), ex], {}, {"sid": sid, "ex": ex, "flags": flags}
 
 
 def _post_iter(engine, st, ctx, out):
@@ -155,9 +160,8 @@ def _post_iter(engine, st, ctx, out):
         return cl
     ev, wt = out.items
     writes = [e for e in st.trace if e.kind == "write" and e.meth == "_jobs"]
+    cl += ctx["flags"].clauses(st, ev is None, ["C11", "C12", "C09"], "the timeout scan")
     if ev is None:
-        cl.append(("the loop ends only after shutdown / interpreter exit", "PC",
-                   z3.BoolVal(any(("is_shutdown" in a) and b for a, b in st.decisions)), ["C11", "C12"]))
         return cl
     cl.append(("the event handed back is the executor's own wake-up event", "WK", engine.to_val(st, ev) == st.get("_jobs_write", sid), ["C09", "C03"]))
     cl.append(("overdue jobs leave the job list in the same critical section (so each is cancelled at most once)", "PC",
@@ -205,6 +209,8 @@ def _post_submit(engine, st, ctx, out):
     if isinstance(out, Raise):
         cl.append(("a failed submission leaves no job behind", "PC", z3.BoolVal(not apps), ["C09", "C11"]))
         return cl
+    from .base import track_clause
+    cl.append(track_clause(engine, st, engine.to_val(st, out), "timeout", st.get("_name", sid)))
     cl.append(("exactly one submission to the delegate, with the submitted callable and arguments unchanged", "PC",
                z3.And(z3.BoolVal(len(subs) == 1 and len(subs[0][1].args) == 1 and subs[0][1].star is not None and subs[0][1].starkw is not None),
                       subs[0][1].args[0] == ctx["fn"].t if subs else False,
@@ -217,11 +223,30 @@ def _post_submit(engine, st, ctx, out):
         reads = st.ghost.get("clock_reads", [])
         t = engine.num(st, ctx["timeout"])
         t = z3.ToReal(t) if t.sort() == I else t
+        cr = [i for i, e in enumerate(st.trace) if e.kind == "clock-read"]
+        cl.append(("never early: the clock is read for the deadline only once the delegate has accepted the callable (time spent getting there - a blocking "
+                   "delegate submit, waiting for the gate - is not taken off the future's timeout)", "PC", z3.BoolVal(len(cr) == 1 and cr[0] > subs[0][0]), ["C09"]))
         cl.append(("deadline = clock read at creation + the per-call timeout; the job links the returned future to the delegate's future", "PC",
                    z3.And(z3.BoolVal(len(reads) == 1), deadline(st, job) == reads[-1] + t if reads else False,
                           st.get("future", jid) == engine.to_val(st, out), st.get("delegate_future", jid) == subs[0][1].ret), ["C09"]))
         cl.append(("W1 signal-after-change: the timeout thread is woken after the job was recorded (so its sleep is recomputed)", "WK",
                    z3.BoolVal(bool(sets) and max(sets) > apps[0][0]), ["C09", "C03"]))
+    # the returned future reports its completion to the executor: _on_future_done (bound to THIS executor: a pending future keeps its
+    # executor - and so the timeout thread - alive) is registered on it, before the job becomes visible to the timeout thread
+    from pyvc.vals import Bound, Func
+    oid = Val.id(engine.to_val(st, out))
+    cbs = [(i, e) for i, e in enumerate(st.trace) if e.kind == "mutate" and e.meth == "append" and "_Future.add_done_callback" in (e.site or "")]
+    own = []
+    for i, e in cbs:
+        cb = engine.resolve(st, Z(z3.simplify(e.args[0]), None))
+        if isinstance(cb, Bound) and isinstance(cb.func, Func) and cb.func.qualname.endswith("TimeoutExecutor._on_future_done"):
+            own.append((i, e, cb))
+    cl.append(("the returned future wakes the timeout thread when it is done, and keeps its executor alive meanwhile: _on_future_done of this executor is "
+               "registered on it exactly once, before the job is recorded", "PC",
+               z3.Or(z3.And(z3.BoolVal(len(own) == 1 and bool(apps) and own[0][0] < apps[0][0]), engine.to_val(st, own[0][2].recv) == ctx["ex"].t if own else False),
+                     # ... or the future was done already (synchronous delegate) and the callback ran at once
+                     z3.BoolVal(not own and any(a == "not self.done()" and not b for a, b in st.decisions)
+                                and any(e.kind == "event-set" and "_on_future_done" in (e.site or "") for e in st.trace))), ["C09", "C12", "C03"]))
     return cl
 
 
